@@ -112,11 +112,35 @@ Proof.
   - rewrite IH by lia. split; intros H; [constructor; auto|inversion H; auto].
 Qed.
 
-Theorem strand_median_none_iff ovals ns : length ovals = length ns ->
-  (strand_scale_median (map cnt ns) (map xval ovals) = None <-> Forall (fun o => o = None) ovals).
+(* None <=> no category has a value, or no respondent is counted in a valued category (the two
+   tests of the repaired code, 2ba43316, in its order) *)
+Theorem strand_median_none_iff ovals rs : cats_below_nat (length ovals) rs ->
+  (strand_scale_median (map cnt (tally_nat (length ovals) rs)) (map xval ovals) = None
+   <-> (Forall (fun o => o = None) ovals \/ values_of ovals rs = [])).
 Proof.
-  intros Hl. unfold strand_scale_median. rewrite <- (valued_pairs_nil_opt ovals ns Hl).
-  destruct (valued_pairs (map xval ovals) (map cnt ns)); split; try reflexivity; discriminate.
+  intros Hc. pose proof (expand_valued_values ovals rs Hc) as P.
+  assert (Hl : length ovals = length (tally_nat (length ovals) rs))
+    by (rewrite tally_nat_length; reflexivity).
+  pose proof (valued_pairs_nil_opt ovals _ Hl) as Hnil.
+  unfold strand_scale_median.
+  destruct (valued_pairs (map xval ovals) (map cnt (tally_nat (length ovals) rs))) as [|p l] eqn:Ev.
+  - split; [intros _|reflexivity]. left. apply Hnil. reflexivity.
+  - destruct (expand_valued (map xval ovals) (map cnt (tally_nat (length ovals) rs))) as [|x e] eqn:Ee.
+    + split; [intros _|reflexivity]. right. apply Permutation_nil. exact P.
+    + split; [discriminate|]. intros [H|H]; exfalso.
+      * apply Hnil in H. discriminate.
+      * rewrite H in P. apply Permutation_sym, Permutation_nil in P. discriminate.
+Qed.
+
+(* the same on any vector of integer counts: None <=> nothing to expand (every valued category,
+   if any, is empty) *)
+Theorem strand_median_none_iff_counts ovals ns :
+  strand_scale_median (map cnt ns) (map xval ovals) = None <-> expand_opt ovals ns = [].
+Proof.
+  unfold strand_scale_median. rewrite <- (expand_valued_opt ovals ns).
+  destruct (valued_pairs (map xval ovals) (map cnt ns)) as [|p l] eqn:Ev.
+  - split; [intros _|reflexivity]. unfold expand_valued. rewrite Ev. reflexivity.
+  - destruct (expand_valued (map xval ovals) (map cnt ns)); split; try reflexivity; discriminate.
 Qed.
 
 Theorem strand_median_eq ovals rs : cats_below_nat (length ovals) rs ->
@@ -136,12 +160,16 @@ Proof.
     apply (is_median_perm _ _ _ P). apply np_median_is_median. discriminate.
 Qed.
 
-(* the defect: categories with values but no numeric-valued respondent: NaN where the mean is None *)
-Theorem strand_median_empty_refuted :
-  exists counts vals, strand_scale_mean counts vals = None /\
-                      strand_scale_stddev_sq counts vals = None /\
-                      strand_scale_median counts vals = Some NaN.
-Proof. exists [Fin 0; Fin 0], [Fin 1; Fin 2]. repeat split. Qed.
+(* the former witness of finding C14-strand-median-nan-when-empty (categories valued 1, 2 and no
+   respondent gave Some NaN before 2ba43316): None like the mean and the deviations *)
+Theorem strand_median_former_witness :
+  let counts := [Fin 0; Fin 0] in let vals := [Fin 1; Fin 2] in
+  any_value vals = true /\
+  strand_scale_mean counts vals = None /\
+  strand_scale_stddev_sq counts vals = None /\
+  strand_scale_stderr_sq counts vals = None /\
+  strand_scale_median counts vals = None.
+Proof. repeat split. Qed.
 
 (* ---- slice *_scale_median_margin -------------------------------------------------------------- *)
 Theorem margin_median_eq ovals rs : cats_below_nat (length ovals) rs ->
